@@ -125,6 +125,12 @@ Print Assumptions C06_in_records.
 Theorem C06_chunk_independent : forall cs bs, concat cs = bs -> cres_flat (cdecode_varint cs) = decode_varint_b bs.
 Proof. exact chunk_independent. Qed.
 Print Assumptions C06_chunk_independent.
+
+(* ... and it IS the only one: the regenerated list of every `.chunk()` in pilota/src/prost/*.rs, by enclosing function, is
+   [decode_varint] (a payload read through `buf.chunk()[..len]` or `extend_from_slice(buf.chunk())` adds an entry) *)
+Theorem C06_chunk_readers : chunk_readers = accounted_chunk_readers.
+Proof. exact chunk_readers_accounted. Qed.
+Print Assumptions C06_chunk_readers.
 (* non-vacuity: Proofs/ChunksP.v chunked_nonvacuous (300 cut between its bytes, 2^63 over ten one-byte chunks),
    chunk_bound_would_reject (the same loop bounded by the first chunk rejects AC | 02).  The message-level decoders over
    non-contiguous buffers are exercised on every run (pv-gen-pb / pv-harness-pb: every decode entry point over two-chunk
